@@ -29,6 +29,7 @@ def c02(tier):
         # pointer indirection that makes closures share locations; compiler listing and register trace
         mcov.update(mach.run(verdict, wd, [('scope2', 15 if q else 800), ('scope3', 20 if q else 1500),
                                            ('scopeloop', 8 if q else 200)], vlib.seed()))
+        mcov['design_check'] = mach.design_check(verdict, wd, 'MC_Machine_q.cfg' if q else 'MC_Machine_t.cfg')
 
     def extra(sessions, ends):
         n = {1: 0, 2: 0, 3: 0, 4: 0}
